@@ -393,10 +393,11 @@ def agg_selects(draw, table, order=None, distinct=None, limit=None, having=None)
     cols = table['cols']
     nkeys = draw(st.sampled_from([1, 1, 2, 2, 0, 3]))
     keys = [draw(key_exprs(cols)) for _ in range(nkeys)]     # the same key may occur twice
-    naggs = draw(st.integers(1, 3)) if nkeys else draw(st.integers(1, 3))
+    # a GROUP BY query need not compute any aggregate (one row per group, keys visible or not)
+    naggs = draw(st.sampled_from([0, 1, 1, 1, 2, 2, 3])) if nkeys else draw(st.integers(1, 3))
     aggs = [draw(agg_exprs(cols)) for _ in range(naggs)]
     hidden = [draw(st.integers(0, 4)) == 0 for _ in keys]
-    if nkeys and all(hidden) and draw(st.booleans()):
+    if nkeys and all(hidden) and (naggs == 0 or draw(st.booleans())):
         hidden[0] = False
     slots = [('key', i) for i in range(nkeys) if not hidden[i]] + [('agg', i) for i in range(naggs)]
     slots = draw(st.permutations(slots))
@@ -410,7 +411,7 @@ def agg_selects(draw, table, order=None, distinct=None, limit=None, having=None)
             tl.append((e, alias))
         else:
             tl.append((aggs[i][0], f'a{i}' if draw(st.integers(0, 2)) == 0 else None))
-    implicit = nkeys > 0 and not any(hidden) and draw(st.integers(0, 2)) == 0
+    implicit = nkeys > 0 and naggs > 0 and not any(hidden) and draw(st.integers(0, 2)) == 0
     gb = None
     if nkeys == 0:
         gb = None
